@@ -82,16 +82,31 @@ def install(mode, cydir=None):
             sys.modules["scriptplan._cython." + n] = None
         return
     if mode == "fresh":
+        # Load the rebuilt extensions BEFORE anything of scriptplan is imported: scriptplan/__init__ pulls in the core
+        # modules, which bind the accelerated functions with 'from ... import' at import time.
+        assert "scriptplan" not in sys.modules, "cybuild.install('fresh') must run before scriptplan is imported"
         suffix = sysconfig.get_config_var("EXT_SUFFIX")
-        import scriptplan._cython  # noqa: F401  (package itself; it tolerates missing extensions)
+        loaded = {}
         for n in NAMES:
             name = "scriptplan._cython." + n
-            loader = importlib.machinery.ExtensionFileLoader(name, os.path.join(cydir, n + suffix))
-            spec = importlib.util.spec_from_loader(name, loader)
+            path = os.path.join(cydir, n + suffix)
+            loader = importlib.machinery.ExtensionFileLoader(name, path)
+            spec = importlib.util.spec_from_loader(name, loader, origin=path)
             m = importlib.util.module_from_spec(spec)
             loader.exec_module(m)
             sys.modules[name] = m
-            setattr(sys.modules["scriptplan._cython"], n, m)
+            loaded[n] = m
+        import scriptplan._cython as pkg
+        for n, m in loaded.items():
+            setattr(pkg, n, m)
+        # verify what the engine really bound
+        from scriptplan.scheduler import scoreboard as sbm
+        from scriptplan.core import working_hours as whm, project as pm
+        for mod, fn in ((sbm, "idx_to_date_fast"), (whm, "check_working_hours_fast"), (pm, "project_idx_to_date")):
+            f = getattr(mod, fn, None)
+            origin = getattr(sys.modules.get(getattr(f, "__module__", ""), None), "__file__", "") if f is not None else ""
+            if not (mod._USE_CYTHON and origin and os.path.dirname(os.path.abspath(origin)) == os.path.abspath(cydir)):
+                raise RuntimeError("fresh extension not bound: %s.%s from %r" % (mod.__name__, fn, origin))
 
 
 if __name__ == "__main__":
